@@ -9,26 +9,27 @@ TIER=${TIER:-quick}
 ids=("$@")
 if [ ${#ids[@]} -eq 0 ]; then ids=($(ls mutants 2>/dev/null)); fi
 res="$ROOT/work/sensitivity.txt"; mkdir -p "$ROOT/work"; : > "$res"
+pname() { case "$1" in */seeded/*) echo "seeded/$(basename "$(dirname "$1")")" ;; *) basename "$1" ;; esac; }
 run_one() {
   id=$1; patch=$2
   dir=$(mktemp -d /tmp/vmut-XXXXXX)
   rsync -a --exclude .git /repo/ "$dir/"
   if ! (cd "$dir" && patch -p1 -s < "$patch" >/dev/null 2>&1); then
-    echo "PATCH-FAILED $id $(basename "$patch")" >> "$res"; rm -rf "$dir"; return
+    echo "PATCH-FAILED $id $(pname "$patch")" >> "$res"; rm -rf "$dir"; return
   fi
   if ! (cd "$dir" && GOFLAGS=-mod=mod GOPROXY=off go build ./... >/dev/null 2>&1); then
-    echo "NO-COMPILE $id $(basename "$patch")" >> "$res"; rm -rf "$dir"; return
+    echo "NO-COMPILE $id $(pname "$patch")" >> "$res"; rm -rf "$dir"; return
   fi
   out=$(VERIF_REPO="$dir" python3 "$ROOT/vcheck.py" "$id" --tier "$TIER" 2>&1); rc=$?
   cls=$(echo "$out" | grep -m1 "class=" | sed 's/^ *//' | cut -c1-160)
-  if [ $rc -eq 1 ]; then echo "CAUGHT $id $(basename "$patch") :: $cls" >> "$res";
-  elif [ $rc -eq 0 ]; then echo "MISSED $id $(basename "$patch")" >> "$res";
-  else echo "INCONCLUSIVE($rc) $id $(basename "$patch") :: $(echo "$out" | tail -3 | tr '\n' ' ' | cut -c1-300)" >> "$res"; fi
+  if [ $rc -eq 1 ]; then echo "CAUGHT $id $(pname "$patch") :: $cls" >> "$res";
+  elif [ $rc -eq 0 ]; then echo "MISSED $id $(pname "$patch")" >> "$res";
+  else echo "INCONCLUSIVE($rc) $id $(pname "$patch") :: $(echo "$out" | tail -3 | tr '\n' ' ' | cut -c1-300)" >> "$res"; fi
   rm -rf "$dir"
 }
 JOBS=${JOBS:-4}
 for id in "${ids[@]}"; do
-  for patch in "$ROOT"/mutants/"$id"/*.patch; do
+  for patch in "$ROOT"/mutants/"$id"/*.patch "$ROOT"/seeded/"$id"-r*/patch.diff; do
     [ -f "$patch" ] || continue
     while [ "$(jobs -r | wc -l)" -ge "$JOBS" ]; do sleep 0.5; done
     run_one "$id" "$patch" &
